@@ -21,6 +21,7 @@ def tasks(tier, seed):
         ts += [dict(t, what="binary") for t in gen.dfa_src_tasks(2, "ab", 4)]
         ts += [{"kind": "rnd_dfa", "count": 400, "seed": seed * 50 + i, "what": "both"} for i in range(3)]
         ts += [{"kind": "numbered_dfa", "count": 25, "seed": seed * 50 + i, "what": "unary"} for i in range(2)]
+        ts += [{"kind": "cyclic_dfa", "count": 250, "seed": seed * 50 + i, "what": "unary"} for i in range(6)]
         ts += [{"kind": "comma_pairs", "count": 150, "seed": seed * 50 + i} for i in range(2)]
         ts += [{"kind": "eps_alphabet_dfa", "count": 40, "seed": seed * 50 + i, "what": "unary"} for i in range(2)]
         ts += [{"kind": "lang", "lo": i * 32, "hi": (i + 1) * 32, "pairs": 400, "seed": seed} for i in range(4)]
@@ -30,6 +31,7 @@ def tasks(tier, seed):
         ts += [dict(t, what="binary3") for t in gen.dfa_src_tasks(3, "ab", 16, stride=13)]
         ts += [{"kind": "rnd_dfa", "count": 1500, "seed": seed * 50 + i, "what": "both"} for i in range(24)]
         ts += [{"kind": "numbered_dfa", "count": 100, "seed": seed * 50 + i, "what": "unary"} for i in range(8)]
+        ts += [{"kind": "cyclic_dfa", "count": 1000, "seed": seed * 50 + i, "what": "unary"} for i in range(16)]
         ts += [{"kind": "comma_pairs", "count": 600, "seed": seed * 50 + i} for i in range(8)]
         ts += [{"kind": "eps_alphabet_dfa", "count": 150, "seed": seed * 50 + i, "what": "unary"} for i in range(4)]
         ts += [{"kind": "lang", "lo": i * 8, "hi": (i + 1) * 8, "pairs": 128 * 8, "seed": seed} for i in range(16)]
